@@ -23,9 +23,9 @@ SPECS["C03"] = {
                    "the 2^32 boundary lives; whole-line exploration cannot reach a 10-digit header within its byte bound.",
     "bounds": {
         "quick": "Lexer.Run: all byte strings of length 1..5; event body: all uint32 title/text lengths, all cursors, buffers of 4 and 8 arbitrary bytes",
-        "thorough": "Lexer.Run: all byte strings of length 1..7; event body: buffers of 4, 8, 12 bytes",
+        "thorough": "Lexer.Run: all byte strings of length 1..7; event body: buffers of 4, 8, 12 bytes; long rejected lines of 255, 256, 257, 300, 1500 bytes (quick: 256, 257, 300)",
     },
-    "outside": ["datagrams longer than the byte bound", "zlib/lz4 decoders and proto.Unmarshal", "net/http panic isolation", "scheduler starvation"],
+    "outside": ["datagrams longer than the byte bound other than the class-constrained long rejected lines", "the log call itself (rate limiter stub answers: do not log)", "zlib/lz4 decoders and proto.Unmarshal", "net/http panic isolation", "scheduler starvation"],
     "assumptions": STUBS_COMMON + [PF_STUB],
     "jobs": [
         {"pkg": "./internal/lexer", "harness": "internal/lexer", "mode": "machine", "nonterm_is_violation": True, "max_steps": 200000, "max_decisions": 300,
@@ -35,6 +35,11 @@ SPECS["C03"] = {
                                   "VerifC03_All7", "VerifC03_EventBody4", "VerifC03_EventBody8", "VerifC03_EventBody12", "VerifC03_Twin"]},
          "reach": {"VerifC03_All4": ["metric", "rejected"], "VerifC03_All5": ["metric", "rejected"], "VerifC03_EventBody8": ["done"]},
          "twin": {"VerifC03_Twin": True},
+         "limits": {"quick": {"timeout": "600s"}, "thorough": {"timeout": "3000s"}}},
+        {"pkg": "./pkg/statsd", "harness": "pkg/statsd", "mode": "machine", "workers": 8,
+         "entries": {"quick": ["VerifC03_LongBad_256", "VerifC03_LongBad_257", "VerifC03_LongBad_300"],
+                     "thorough": ["VerifC03_LongBad_255", "VerifC03_LongBad_256", "VerifC03_LongBad_257", "VerifC03_LongBad_300", "VerifC03_LongBad_1500"]},
+         "reach": {"VerifC03_LongBad_257": ["long-bad"], "VerifC03_LongBad_300": ["long-bad"]},
          "limits": {"quick": {"timeout": "600s"}, "thorough": {"timeout": "3000s"}}},
     ],
 }
@@ -163,21 +168,21 @@ SPECS["C08"] = {
                    "for the percentile the count, mean, sum, sum of squares and boundary of the k lowest (p>0) or k highest (p<0) values, with their names "
                    "(count_<p> ...; strconv.Itoa of the symbolic p is rendered exactly). sort.Float64s is executed from source. All comparisons are exact "
                    "equalities over the reals, so algebraically equivalent refactorings do not alarm while a rank off by one, n-1 for n or a wrong boundary does. "
-                   "RANK LEMMA (machine mode, IEEE float64): for all integer p in [-100,100] and n in 2..64 the rank the code computes in floating point lies in "
+                   "TWO THRESHOLDS (math mode): the same with a configured list of two percentiles - seven concrete pairs (90/-90, 50/99.9, 12.5/-37.5, -100/100, 0.1/75, -62.5/-25, 1/-1) chosen by a symbolic index and inserted in either order: every sub-metric of each threshold is reported exactly once with the value of ITS k lowest / highest values (order-free oracle), so state leaking from one threshold's iteration into the next, or a skipped threshold after one that covers no value, is a violation. RANK LEMMA (machine mode, IEEE float64): for all integer p in [-100,100] and n in 2..64 the rank the code computes in floating point lies in "
                    "[0,n] and is a nearest integer of |p|n/100. HISTOGRAM (machine mode): timer tagged gsd_histogram:<items> with symbolic item bytes (parsable "
                    "or not, via the ParseFloat stub), symbolic values, limits 0/1/2/max: exactly the first min(limit, #parsable) bounds and +Inf, each with the "
                    "number of values <= bound; none of the summary statistics; nothing when the limit is 0.",
-    "bounds": {"quick": "statistics: n = 0..3 values, one percentile; rank lemma: n <= 64; histogram: <= 2 items of 1 byte, <= 2 values",
-               "thorough": "statistics: n = 0..4; histogram: <= 3 items, items of 2 bytes"},
+    "bounds": {"quick": "statistics: n = 0..3 values, one symbolic integer percentile, and 1..3 values under a list of two percentiles (seven concrete pairs incl. fractional ones, both insertion orders); rank lemma: n <= 64; histogram: <= 2 items of 1 byte, <= 2 values",
+               "thorough": "statistics: n = 0..4 (one and two percentiles); histogram: <= 3 items, items of 2 bytes"},
     "outside": ["float64 rounding of sums (math mode); NaN/Inf timer values in the statistics", "n > 4 (statistics), n > 64 (rank lemma: the solvers do not decide larger n within 10 min)",
-                "several percentiles per run (each is computed independently in the loop)",
+                "lists of more than two percentiles; fractional percentiles other than the seven concrete pairs of the Multi entries",
                 "observation: at exact halves (p=57, n=50: 0.57*50 = 28.499999999999996 in float64) the code rounds down where exact arithmetic rounds half up; both are nearest integers"],
     "assumptions": STUBS_COMMON + [MATH_NOTE, PF_STUB, TIME_MODEL, "math.Sqrt in math mode: fresh r with r >= 0 and r*r = x"],
     "jobs": [
         {"pkg": "./pkg/statsd", "harness": "pkg/statsd", "mode": "math",
-         "entries": {"quick": ["VerifC08_Stats0", "VerifC08_Stats1", "VerifC08_Stats2", "VerifC08_Stats3", "VerifC08_Twin"],
-                     "thorough": ["VerifC08_Stats0", "VerifC08_Stats1", "VerifC08_Stats2", "VerifC08_Stats3", "VerifC08_Stats4", "VerifC08_Twin"]},
-         "reach": {"VerifC08_Stats0": ["empty"], "VerifC08_Stats2": ["percentile", "percentile-omitted"], "VerifC08_Stats3": ["percentile", "percentile-omitted"]},
+         "entries": {"quick": ["VerifC08_Stats0", "VerifC08_Stats1", "VerifC08_Stats2", "VerifC08_Stats3", "VerifC08_Multi1", "VerifC08_Multi2", "VerifC08_Multi3", "VerifC08_Twin"],
+                     "thorough": ["VerifC08_Stats0", "VerifC08_Stats1", "VerifC08_Stats2", "VerifC08_Stats3", "VerifC08_Stats4", "VerifC08_Multi1", "VerifC08_Multi2", "VerifC08_Multi3", "VerifC08_Multi4", "VerifC08_Twin"]},
+         "reach": {"VerifC08_Multi2": ["multi"], "VerifC08_Multi3": ["multi"], "VerifC08_Stats0": ["empty"], "VerifC08_Stats2": ["percentile", "percentile-omitted"], "VerifC08_Stats3": ["percentile", "percentile-omitted"]},
          "twin": {"VerifC08_Twin": True},
          "limits": {"quick": {"timeout": "600s"}, "thorough": {"timeout": "5400s"}}},
         {"pkg": "./pkg/statsd", "harness": "pkg/statsd", "mode": "machine", "workers": 4, "solver_ms": 60000,
@@ -314,7 +319,9 @@ SPECS["C12"] = {
                    "INFO: handleInstanceInfo with an instance or nil at a symbolic now: the answer is queued for return exactly once and unchanged; a positive "
                    "entry answered with nil keeps serving the old instance; expiry = now + the TTL of its kind; refresh counted once. REFRESH: doRefresh at a "
                    "symbolic t evicts exactly the entries with t - lastAccess > idle and re-queues exactly the remaining ones with t after their expiry. PEEK: "
-                   "hit iff cached, serves the cached instance, refreshes last access. LOOKUP: doLookup over 1..3 sources with a provider stub returning nil / "
+                   "hit iff cached, serves the cached instance, refreshes last access. HISTORY: k = 3..4 (5) symbolic commands {answer | tick | read} from the EMPTY cache with "
+                   "whole hours passing before each (periods = whole hours + 30 min, so the real clock of a native replay follows the same path), the same per-step oracles and the ghost state "
+                   "carried along - this reaches state an implementation keeps outside the cache map and the gauges (a scratch list kept between ticks, a memo), which an arbitrary one-step pre-state cannot populate. LOOKUP: doLookup over 1..3 sources with a provider stub returning nil / "
                    "partial / full maps with or without an error: one query, exactly one answer per requested source, in order, carrying the provider's result. "
                    "LOOP: the real Run loop (select over the lookup, answer and refresh-ticker channels), the real lookup dispatcher goroutine (batching by size and by the 10 ms batch "
                    "timer, x/time/rate limiter with an infinite rate, doLookup) and the handlers wired together under the engine's scheduler: a client submits 1..2 (3) sources out of two, "
@@ -325,15 +332,15 @@ SPECS["C12"] = {
                    "LOOP-BUSY: two cached sources, TTLs 30 s, idle period 90 s: the first tick re-queries both while the provider is slow (its calls wait at a gate the harness holds), the "
                    "second tick - earlier refresh queries still under way, one of them possibly still waiting to be handed to the dispatcher - must evict both at once; when the gate opens "
                    "every refresh query is answered exactly once.",
-    "bounds": {"quick": "2 sources; all option values in [0, 24h]/[0, 240h]; instants between 2020 and 2030; loop: 1..2 submissions, 3 provider outcomes, TTLs / idle period from {30 s, 5 min / 10 min}, one refresh tick",
+    "bounds": {"quick": "2 sources; all option values in [0, 24h]/[0, 240h]; instants between 2020 and 2030; histories of 3 and 4 commands (thorough: 5); loop: 1..2 submissions, 3 provider outcomes, TTLs / idle period from {30 s, 5 min / 10 min}, one refresh tick",
                "thorough": "loop: 1..3 submissions, all 5 provider outcomes"},
     "outside": ["real concurrency between Peek and the owner goroutine", "schedules other than the engine's cooperative ones (goroutines switch at blocking operations; every multi-ready select forked)", "a finite rate limit"],
     "assumptions": STUBS_COMMON + [MATH_NOTE, TIME_MODEL],
     "jobs": [
         {"pkg": "./pkg/cachedinstances/cloudprovider", "harness": "pkg/cachedinstances/cloudprovider", "mode": "math",
-         "entries": {"quick": ["VerifC12_Info", "VerifC12_Refresh", "VerifC12_Peek", "VerifC12_Lookup", "VerifC12_Loop", "VerifC12_LoopBusy", "VerifC12_LoopTwin", "VerifC12_Twin"],
-                     "thorough": ["VerifC12_Info", "VerifC12_Refresh", "VerifC12_Peek", "VerifC12_Lookup", "VerifC12_Loop", "VerifC12_LoopBusy", "VerifC12_LoopFull", "VerifC12_LoopTwin", "VerifC12_Twin"]},
-         "reach": {"VerifC12_Info": ["kept-on-error", "positive-answer"], "VerifC12_Refresh": ["evicted", "requeued"], "VerifC12_Peek": ["hit"], "VerifC12_Lookup": ["lookup"],
+         "entries": {"quick": ["VerifC12_Info", "VerifC12_Refresh", "VerifC12_Peek", "VerifC12_Hist3", "VerifC12_Hist4", "VerifC12_Lookup", "VerifC12_Loop", "VerifC12_LoopBusy", "VerifC12_LoopTwin", "VerifC12_Twin"],
+                     "thorough": ["VerifC12_Info", "VerifC12_Refresh", "VerifC12_Peek", "VerifC12_Hist3", "VerifC12_Hist4", "VerifC12_Hist5", "VerifC12_Lookup", "VerifC12_Loop", "VerifC12_LoopBusy", "VerifC12_LoopFull", "VerifC12_LoopTwin", "VerifC12_Twin"]},
+         "reach": {"VerifC12_Hist4": ["history", "evicted", "requeued", "kept-on-error", "hit"], "VerifC12_Info": ["kept-on-error", "positive-answer"], "VerifC12_Refresh": ["evicted", "requeued"], "VerifC12_Peek": ["hit"], "VerifC12_Lookup": ["lookup"],
                    "VerifC12_Loop": ["refreshed", "evicted", "loop-done"], "VerifC12_LoopBusy": ["evicted-while-busy", "busy-done"], "VerifC12_LoopFull": ["refreshed", "evicted", "loop-done"]},
          "twin": {"VerifC12_Twin": True, "VerifC12_LoopTwin": True}, "blocked_is_violation": True,
          "limits": {"quick": {"timeout": "600s"}, "thorough": {"timeout": "1800s"}}},
